@@ -116,9 +116,3 @@ def run(tier: str, seed: int) -> int:
         "multi-step numerical agreement is by composition (L1 wiring + per-op exactness) plus the sampled relational replays",
     ]
     return rep.finish()
-
-
-def replay(rep_obj) -> int:
-    print(rep_obj.get("what"))
-    print("re-run: ./check C03 --tier quick (the replay file lists the rejected event and the last events before it)")
-    return 1
